@@ -557,6 +557,23 @@ def b_abs(it, v):
     return _native(abs, v)
 
 
+def b_round(it, v, nd=None):
+    if not isinstance(v, Sym):
+        if isinstance(nd, Sym):
+            raise OutsideSubset("round with symbolic ndigits")
+        return _native(round, v) if nd is None else _native(round, v, nd)
+    if nd is not None:
+        raise OutsideSubset("round(x, ndigits) symbolic")
+    if v.kind == 'int':
+        return v
+    if v.kind != 'real':
+        py_raise(TypeError, "round()")
+    f = z3.ToInt(v.e)
+    frac = v.e - z3.ToReal(f)
+    half = z3.RealVal('1/2')
+    return wrap(z3.If(frac < half, f, z3.If(frac > half, f + 1, z3.If(f % 2 == 0, f, f + 1))))   # half to even
+
+
 def b_range(it, *args):
     from .interp import SymRange
     if all(isinstance(a, int) for a in args):
@@ -743,7 +760,7 @@ def b_id(it, v):
 
 BUILTINS = {
     len: b_len, isinstance: b_isinstance, int: b_int, float: b_float, str: b_str, bool: b_bool,
-    max: b_max, min: b_min, sum: b_sum, abs: b_abs, range: b_range, list: b_list, tuple: b_tuple,
+    max: b_max, min: b_min, sum: b_sum, abs: b_abs, round: b_round, range: b_range, list: b_list, tuple: b_tuple,
     dict: b_dict, set: b_set, sorted: b_sorted, enumerate: b_enumerate, zip: b_zip, any: b_any,
     all: b_all, reversed: b_reversed, map: b_map, filter: b_filter, getattr: b_getattr,
     hasattr: b_hasattr, type: b_type, functools.reduce: b_reduce, operator.add: b_opadd,
